@@ -87,9 +87,9 @@ MUTANTS = [
      "                        pass\n",
      'members of an input range not walked (D11 reverted)'),
     ('M16', 'C09', 'excelcompiler.py',
-     "        finally:\n            self.range_todos = []\n",
-     "        finally:\n            pass\n",
-     'range_todos not cleared after a failure'),
+     "        range_todos, self.range_todos = self.range_todos, []\n",
+     "        range_todos = list(self.range_todos)\n",
+     'pending range list never cleared (also not after a failure)'),
     ('M17', 'C09', 'excelcompiler.py',
      "                        if isinstance(cell, _CycleCell):\n                            # a failed calculation is not in progress anymore\n                            cell.wip = False\n",
      "                        pass\n",
